@@ -16,13 +16,14 @@ def menu(rng, degenerate=None):
         ("FISTA", "Quadratic", "L1"), ("FISTA", "Logistic", "L1_plus_L2"),
         ("GroupBCD", "Quadratic", "WeightedGroupL2"), ("GroupBCD", "Logistic", "WeightedGroupL2"),
         ("GroupProxNewton", "Logistic", "WeightedGroupL2"), ("MultiTaskBCD", "QuadraticMultiTask", "L2_1"),
+        ("GroupBCD", "Quadratic", "WeightedL1GroupL2"),
     ]:
         ykind = {"Quadratic": "real", "WeightedQuadratic": "real", "Huber": "real", "Logistic": "sign", "Poisson": "count", "Gamma": "pos",
                  "QuadraticMultiTask": "real"}[dname]
         n, p = rng.randint(5, 9), rng.randint(2, 6)
         X, y = sl.make_problem(rng, n=n, p=p, kind=ykind)
         spec = dict(solver=sname, datafit=dname, penalty=pk, fit_intercept=bool(rng.random() < 0.5 and sname not in ("GramCD", "FISTA")),
-                    ws_strategy=rng.choice(["subdiff", "fixpoint"]), positive=bool(rng.random() < 0.2 and pk in ("L1", "WeightedL1", "L1_plus_L2", "MCPenalty", "WeightedGroupL2")),
+                    ws_strategy=rng.choice(["subdiff", "fixpoint"]) if pk != "WeightedL1GroupL2" else "fixpoint", positive=bool(rng.random() < 0.2 and pk in ("L1", "WeightedL1", "L1_plus_L2", "MCPenalty", "WeightedGroupL2")),
                     seed=rng.randrange(10 ** 6), alpha_frac=rng.choice([0.05, 0.3]), tol=1e-8)
         if degenerate:
             X, y = degenerate(rng, X, y, ykind)
@@ -59,7 +60,7 @@ def build(spec, sparse_X=False):
     else:
         target = y
         base = dname if dname in sl.DATAFITS else "Quadratic"
-        if pk == "WeightedGroupL2":
+        if pk in ("WeightedGroupL2", "WeightedL1GroupL2"):
             df = sd.QuadraticGroup(grp_ptr, grp_indices) if dname == "Quadratic" else sd.LogisticGroup(grp_ptr, grp_indices)
         else:
             df = sl.DATAFITS[dname][0](DP)
@@ -70,7 +71,11 @@ def build(spec, sparse_X=False):
         if not np.isfinite(amax) or amax <= 0:
             amax = 1.0
         alpha = amax * spec["alpha_frac"]
-        if pk == "WeightedGroupL2":
+        if pk == "WeightedL1GroupL2":
+            weights = np.array([rng.choice([0.5, 1.0, 2.0]) for _ in range(ng)])
+            wfeat = np.array([rng.choice([0.0, 0.5, 1.0]) for _ in range(p)])
+            pen, PP = sp.WeightedL1GroupL2(alpha * 0.5, weights, wfeat, grp_ptr, grp_indices), dict(alpha=alpha * 0.5, weights_groups=weights, weights_features=wfeat, grp_ptr=grp_ptr, grp_indices=grp_indices)
+        elif pk == "WeightedGroupL2":
             weights = np.array([rng.choice([0.5, 1.0, 2.0]) for _ in range(ng)])
             pen, PP = sp.WeightedGroupL2(alpha, weights, grp_ptr, grp_indices, spec["positive"]), dict(alpha=alpha, weights=weights, grp_ptr=grp_ptr, grp_indices=grp_indices, positive=spec["positive"])
         else:
@@ -91,14 +96,38 @@ def build(spec, sparse_X=False):
     return solver, Xin, target, df, pen, DP, PP, fi
 
 
-def run_composition(spec, sparse_X=False):
+def run_composition(spec, sparse_X=False, warm=False):
+    """warm=True: start from a dense random point (non-zero on every column, all-zero ones included) with its consistent model fit"""
     solver, Xin, target, df, pen, DP, PP, fi = build(spec, sparse_X)
     sname = spec["solver"]
+    w_init = Xw_init = None
+    if warm:
+        import random
+        r2 = random.Random(spec["seed"] + 17)
+        Xd = np.array(spec["X"], dtype=float)
+        p_ = Xd.shape[1]
+        tgt = np.asarray(target)
+        # coefficients scaled to the columns (the model fit stays O(1) whatever the feature scales); all-zero columns get O(1) values
+        cs = np.array([np.linalg.norm(Xd[:, j]) / np.sqrt(Xd.shape[0]) for j in range(p_)])
+        cs = np.where(cs > 0, cs, 1.0)
+        if tgt.ndim == 2:
+            w_init = np.array([[r2.choice([-1.0, 0.5, 0.75]) for _ in range(tgt.shape[1])] for _ in range(p_ + fi)])
+            w_init[:p_] = w_init[:p_] / cs[:, None]
+            Xw_init = np.asfortranarray(Xd @ w_init[:p_] + (w_init[-1] if fi else 0.0))
+        else:
+            w_init = np.array([r2.choice([-1.0, 0.5, 0.75]) for _ in range(p_ + fi)])
+            if spec.get("positive") or spec["penalty"] in ("IndicatorBox", "PositiveConstraint"):
+                w_init[:p_] = np.abs(w_init[:p_])
+            w_init[:p_] = w_init[:p_] / cs
+            Xw_init = Xd @ w_init[:p_] + (w_init[-1] if fi else 0.0)
     dfc = None if sname == "GramCD" else sl.cc(df)
     if dfc is not None and sname in ("ProxNewton", "FISTA", "GroupProxNewton") and hasattr(dfc, "initialize"):
         if sparse_X and hasattr(dfc, "initialize_sparse"):
             dfc.initialize_sparse(Xin.data, Xin.indptr, Xin.indices, target)
         else:
             dfc.initialize(Xin if not sparse_X else np.asarray(Xin.todense()), target)
-    w, objs, stop = solver.solve(Xin, target, dfc, sl.cc(pen))
+    if warm:
+        w, objs, stop = solver.solve(Xin, target, dfc, sl.cc(pen), w_init, Xw_init)
+    else:
+        w, objs, stop = solver.solve(Xin, target, dfc, sl.cc(pen))
     return dict(w=np.asarray(w, dtype=float).tolist(), objs=np.asarray(objs, dtype=float).tolist(), stop=float(stop))
